@@ -68,20 +68,28 @@ impl<T> Queue<T> {
     ) -> bool {
         // is `onto` the actual tail?
         let o = unsafe { onto.deref() };
+        #[cfg(feature = "circ_verif")]
+        crate::verif::yp(crate::verif::site::Q_PUSH_NEXT);
         let next = o.next.load(Acquire, guard);
         if unsafe { next.as_ref().is_some() } {
+            #[cfg(feature = "circ_verif")]
+            crate::verif::yp(crate::verif::site::Q_PUSH_HELP);
             // if not, try to "help" by moving the tail pointer forward
             let _ = self
                 .tail
                 .compare_exchange(onto, next, Release, Relaxed, guard);
             false
         } else {
+            #[cfg(feature = "circ_verif")]
+            crate::verif::yp(crate::verif::site::Q_PUSH_LINK);
             // looks like the actual tail; attempt to link in `n`
             let result = o
                 .next
                 .compare_exchange(RawShared::null(), new, Release, Relaxed, guard)
                 .is_ok();
             if result {
+                #[cfg(feature = "circ_verif")]
+                crate::verif::yp(crate::verif::site::Q_PUSH_SWING);
                 // try to move the tail pointer forward
                 let _ = self
                     .tail
@@ -100,6 +108,8 @@ impl<T> Queue<T> {
 
         loop {
             // We push onto the tail, so we'll start optimistically by looking there first.
+            #[cfg(feature = "circ_verif")]
+            crate::verif::yp(crate::verif::site::Q_PUSH_TAIL);
             let tail = self.tail.load(Acquire, guard);
 
             // Attempt to push onto the `tail` snapshot; fails if `tail.next` has changed.
@@ -112,21 +122,33 @@ impl<T> Queue<T> {
     /// Attempts to pop a data node. `Ok(None)` if queue is empty; `Err(())` if lost race to pop.
     #[inline(always)]
     fn pop_internal(&self, guard: &Guard) -> Result<Option<T>, ()> {
+        #[cfg(feature = "circ_verif")]
+        crate::verif::yp(crate::verif::site::Q_POP_HEAD);
         let head = self.head.load(Acquire, guard);
         let h = unsafe { head.deref() };
+        #[cfg(feature = "circ_verif")]
+        crate::verif::yp(crate::verif::site::Q_POP_NEXT);
         let next = h.next.load(Acquire, guard);
         match unsafe { next.as_ref() } {
             Some(n) => unsafe {
+                #[cfg(feature = "circ_verif")]
+                crate::verif::yp(crate::verif::site::Q_POP_CAS);
                 self.head
                     .compare_exchange(head, next, Release, Relaxed, guard)
                     .map(|_| {
+                        #[cfg(feature = "circ_verif")]
+                        crate::verif::yp(crate::verif::site::Q_POP_TAIL);
                         let tail = self.tail.load(Relaxed, guard);
                         // Advance the tail so that we don't retire a pointer to a reachable node.
                         if head.ptr_eq(tail) {
+                            #[cfg(feature = "circ_verif")]
+                            crate::verif::yp(crate::verif::site::Q_POP_FIX);
                             let _ = self
                                 .tail
                                 .compare_exchange(tail, next, Release, Relaxed, guard);
                         }
+                        #[cfg(feature = "circ_verif")]
+                        crate::verif::yp(crate::verif::site::Q_POP_READ);
                         guard.defer_destroy(head);
                         Some(n.data.assume_init_read())
                     })
@@ -144,21 +166,33 @@ impl<T> Queue<T> {
         T: Sync,
         F: Fn(&T) -> bool,
     {
+        #[cfg(feature = "circ_verif")]
+        crate::verif::yp(crate::verif::site::Q_POP_HEAD);
         let head = self.head.load(Acquire, guard);
         let h = unsafe { head.deref() };
+        #[cfg(feature = "circ_verif")]
+        crate::verif::yp(crate::verif::site::Q_POP_NEXT);
         let next = h.next.load(Acquire, guard);
         match unsafe { next.as_ref() } {
             Some(n) if condition(unsafe { &*n.data.as_ptr() }) => unsafe {
+                #[cfg(feature = "circ_verif")]
+                crate::verif::yp(crate::verif::site::Q_POP_CAS);
                 self.head
                     .compare_exchange(head, next, Release, Relaxed, guard)
                     .map(|_| {
+                        #[cfg(feature = "circ_verif")]
+                        crate::verif::yp(crate::verif::site::Q_POP_TAIL);
                         let tail = self.tail.load(Relaxed, guard);
                         // Advance the tail so that we don't retire a pointer to a reachable node.
                         if head.ptr_eq(tail) {
+                            #[cfg(feature = "circ_verif")]
+                            crate::verif::yp(crate::verif::site::Q_POP_FIX);
                             let _ = self
                                 .tail
                                 .compare_exchange(tail, next, Release, Relaxed, guard);
                         }
+                        #[cfg(feature = "circ_verif")]
+                        crate::verif::yp(crate::verif::site::Q_POP_READ);
                         guard.defer_destroy(head);
                         Some(n.data.assume_init_read())
                     })
